@@ -69,3 +69,11 @@ func (pt *PrefixTable) VerifRouters() []VerifPrefixRouter {
 	}
 	return out
 }
+
+// VerifForgetLatest makes every prefix-sync fetch loop end at its next
+// re-check (simulator teardown only).
+func (pt *PrefixTable) VerifForgetLatest() {
+	for _, r := range pt.routers {
+		r.Latest = r.Known
+	}
+}
